@@ -45,7 +45,7 @@ import numpy as np
 import core
 
 LEAN_MODULE = "Optyx.Props.C14"
-EXTRA_MODULES = ["Optyx.Props.PinsC14", "Optyx.Props.StateTie", "Optyx.Props.BuildTie", "Optyx.Props.VarsStepTie", "Optyx.Props.DegreeEntryTie"]   # transcription anchors (harness/source_pins.py)
+EXTRA_MODULES = ["Optyx.Props.PinsC14", "Optyx.Props.StateTie", "Optyx.Props.BuildTie", "Optyx.Props.VarsStepTie", "Optyx.Props.DegreeEntryTie", "Optyx.Props.SpineTie"]   # transcription anchors (harness/source_pins.py)
 THEOREMS = [
     "Optyx.Props.C14.cache_transparent",
     "Optyx.Props.C14.cache_transparent_run",
@@ -68,6 +68,12 @@ THEOREMS = [
     "Optyx.Props.DegreeEntryTie.encodeDeg_eq",
     "Optyx.Props.DegreeEntryTie.readDegree_int",
     "Optyx.Props.DegreeEntryTie.slot_roundtrip",
+    "Optyx.Props.SpineTie.depthC_step",
+    "Optyx.Props.SpineTie.depthE_step",
+    "Optyx.Props.SpineTie.spineBU_step",
+    "Optyx.Props.SpineTie.depthG_eq",
+    "Optyx.Props.SpineTie.compileSwitch_eq",
+    "Optyx.Props.SpineTie.getAllVariables_eq",
     "Optyx.Props.PinsC14.anchors",
 ]
 ASSUMPTIONS = [
